@@ -123,6 +123,7 @@ class Sim:
         self.abstract_states = set()
         self.state_fn = None
         self.thread_exceptions = []
+        self.prio = {}
 
     # ------------------------------------------------------------------ tasks
     def register_main(self, name="consumer"):
@@ -270,6 +271,16 @@ class Sim:
             pick = names.index(order[0])
             return [1.0 if i == pick else 0.0 for i in range(n)]
         s = self.strategy
+        if s == "pct":
+            # PCT-style: fixed seeded priorities, always run the highest-priority runnable task, and at a few seeded steps
+            # demote the running task (a priority inversion) - finds bugs that need a small number of specific pre-emptions
+            if self.choices.choose([1.0 - self.switch_p / 10.0, self.switch_p / 10.0]) == 1 and me is not None:
+                self.prio[me.name] = min(self.prio.values(), default=0) - 1
+            for t_, _e in opts:
+                if t_.name not in self.prio:
+                    self.prio[t_.name] = self.choices.choose([1.0] * 8)  # seeded initial priority
+            best = max(range(n), key=lambda i: (self.prio[opts[i][0].name] - (1000 if opts[i][1] else 0), -i))
+            return [1.0 if i == best else 0.0 for i in range(n)]
         w = []
         for i, (t, expire) in enumerate(opts):
             base = 1.0
